@@ -128,6 +128,13 @@ impl Contract<Empty> for FlakyToken {
         self.inner.query(d, e, m)
     }
     fn sudo(&self, d: DepsMut, _e: Env, m: Vec<u8>) -> AnyResult<Response> {
+        if let Ok(op) = from_json::<RawOp>(&m) {
+            match op {
+                RawOp::RawSet { key, value } => d.storage.set(key.as_slice(), value.as_slice()),
+                RawOp::RawRemove { key } => d.storage.remove(key.as_slice()),
+            }
+            return Ok(Response::new());
+        }
         let v: Value = from_json(&m)?;
         if let Some(on) = v.get("on").and_then(|x| x.as_bool()) {
             if on { d.storage.set(b"verif_fail", b"1"); } else { d.storage.remove(b"verif_fail"); }
@@ -199,7 +206,18 @@ impl Run {
         }
     }
 
-    pub fn start(cfg: &Value, run_no: u64, out: &mut Out) -> Option<Run> {
+    pub fn start(cfg0: &Value, run_no: u64, out: &mut Out) -> Option<Run> {
+        // a fixture run: the configuration the recorded state was produced with, plus the index of the state
+        let fx = cfg0.get("fixture").and_then(|x| x.as_u64()).and_then(|k| fixture("ics20", k as usize).map(|f| (k, f)));
+        let merged;
+        let cfg: &Value = if let Some((k, f)) = &fx {
+            let mut c = f["cfg"].clone();
+            c["fixture"] = json!(k);
+            merged = c;
+            &merged
+        } else {
+            cfg0
+        };
         let log2 = cfg.get("scale").and_then(|x| x.as_u64()).unwrap_or(0);
         let sc = Scale::new(1u128 << log2);
         SWAP.with(|s| s.set(cfg.get("swap").and_then(|x| x.as_bool()).unwrap_or(false)));
@@ -274,7 +292,9 @@ impl Run {
                     key.extend_from_slice(&[0u8, ch.len() as u8]);
                     key.extend_from_slice(ch.as_bytes());
                     key.extend_from_slice(dc.as_bytes());
-                    let cur = run.w.app.dump_wasm_raw(&ics).into_iter().find(|(k, _)| *k == key).map(|(_, v)| v).expect("channel state of the pre-history");
+                    // (the old layouts are laid down by hand under the storage keys of the releases; if the code under
+                    // test keeps its books elsewhere, this start state cannot be produced: no run - the fixture runs see it)
+                    let Some(cur) = run.w.app.dump_wasm_raw(&ics).into_iter().find(|(k, _)| *k == key).map(|(_, v)| v) else { return None };
                     let v: Value = serde_json::from_slice(&cur).unwrap();
                     let o: u128 = v["outstanding"].as_str().unwrap().parse().unwrap();
                     let t: u128 = v["total_sent"].as_str().unwrap().parse().unwrap();
@@ -315,7 +335,35 @@ impl Run {
                 run.w.app.wasm_sudo(ics, &RawOp::RawSet { key: Binary::from(b"contract_info".to_vec()), value: Binary::from(serde_json::to_vec(&v).unwrap()) }).unwrap();
             }
         }
+        if let Some((_, f)) = &fx {
+            // the whole world of the recorded state: both contracts' storage, the bank, the packets in flight
+            if names_of(&run.w) != f["names"] {
+                eprintln!("fixtures/ics20.ndjson was recorded with other addresses: regenerate it (tools/mkfixtures.sh)");
+                std::process::exit(2);
+            }
+            let (ics, tok) = (run.ics.clone(), run.tok.clone());
+            load_raw(&mut run.w, &ics, &f["raw"]);
+            load_raw(&mut run.w, &tok, &f["rawTok"]);
+            let bank = f["bank"].as_object().unwrap().clone();
+            let names = run.w.names.clone();
+            run.w.app.init_modules(|router, _, storage| {
+                for (addr, _) in &names {
+                    if let Some(cs) = bank.get(addr) {
+                        let coins: Vec<Coin> = cs.as_array().unwrap().iter().map(|c| Coin::new(c[1].as_str().unwrap().parse::<u128>().unwrap(), c[0].as_str().unwrap())).collect();
+                        router.bank.init_balance(storage, &Addr::unchecked(addr.clone()), coins).unwrap();
+                    }
+                }
+            });
+            run.pkts = f["pkts"].as_array().unwrap().iter().map(|p| Pkt { packet: serde_json::from_value(p["packet"].clone()).unwrap(), done: p["done"].as_bool().unwrap() }).collect();
+            run.seq = n(f, "seq");
+            run.tok_fails = f["tokFails"].as_bool().unwrap();
+            run.channels = f["channels"].as_array().unwrap().iter().map(|c| c.as_str().unwrap().to_string()).collect();
+            run.w.set_clock(n(&f["now"], "h"), n(&f["now"], "t"));
+        }
         let mut cfgv = cfg.clone();
+        if let Some((_, f)) = &fx {
+            cfgv["expect"] = f["obs"].clone();
+        }
         cfgv["pktMax"] = json!(if log2 >= 35 { ((u64::MAX as u128) / run.sc.u) as i64 } else { -1 });
         let obs = run.observe(legacy != "none");
         let anom = run.sc.take_anomalies();
@@ -655,9 +703,48 @@ pub fn rand_cfg(rng: &mut Rng) -> Value {
 }
 
 pub fn random_run(rng: &mut Rng, run_no: u64, len: usize, out: &mut Out) {
-    let cfg = rand_cfg(rng);
+    let nfx = fixture_count("ics20") as u64;
+    let cfg = if nfx > 0 && rng.chance(1, 6) { json!({"fixture": rng.below(nfx), "legacy": "none"}) } else { rand_cfg(rng) };
     let Some(mut run) = Run::start(&cfg, run_no, out) else { return };
-    let legacy = s(&cfg, "legacy") != "none";
+    if cfg.get("fixture").is_some() && rng.chance(1, 2) {
+        // the upgrade itself: the current code is installed over the recorded state
+        run.step(&json!({"act":"migrate","by":"creator","args":{"gas":-1}}), out);
+    }
+    drive(&mut run, &cfg, rng, len, out);
+}
+
+/// records states of the whole ics20 world as the current tree writes them (tools/mkfixtures.sh, unchanged tree only)
+pub fn make_fixtures(rng: &mut Rng, count: usize, len: usize, path: &str) {
+    let mut lines = String::new();
+    let mut sink = Out::create("/dev/null");
+    let mut k = 0;
+    while k < count {
+        let mut cfg = rand_cfg(rng);
+        cfg["legacy"] = json!("none");
+        cfg["pre"] = json!([]);
+        cfg["ver"] = json!("cur");
+        let Some(mut run) = Run::start(&cfg, k as u64, &mut sink) else { continue };
+        drive(&mut run, &cfg, rng, len, &mut sink);
+        let mut bank = serde_json::Map::new();
+        for (addr, _) in run.w.names.clone() {
+            let bs = run.w.app.wrap().query_all_balances(addr.clone()).unwrap_or_default();
+            bank.insert(addr, Value::Array(bs.iter().map(|c| json!([c.denom, c.amount.to_string()])).collect()));
+        }
+        let pk: Vec<Value> = run.pkts.iter().map(|p| json!({"packet": p.packet, "done": p.done})).collect();
+        let fx = json!({"cfg": cfg, "now": run.w.now(), "names": names_of(&run.w), "raw": dump_raw(&run.w, &run.ics), "rawTok": dump_raw(&run.w, &run.tok),
+            "bank": Value::Object(bank), "pkts": pk, "seq": run.seq, "tokFails": run.tok_fails, "channels": run.channels, "obs": run.observe(false)});
+        if !run.sc.take_anomalies().is_empty() {
+            continue;
+        }
+        lines.push_str(&serde_json::to_string(&fx).unwrap());
+        lines.push('\n');
+        k += 1;
+    }
+    std::fs::write(path, lines).unwrap();
+}
+
+fn drive(run: &mut Run, cfg: &Value, rng: &mut Rng, len: usize, out: &mut Out) {
+    let legacy = s(cfg, "legacy") != "none";
     if legacy {
         let g = if rng.chance(1, 2) { -1 } else { 300 };
         run.step(&json!({"act":"migrate","by":"creator","args":{"gas":g}}), out);
